@@ -58,41 +58,41 @@ type VResult struct {
 // ---- pre-state view -------------------------------------------------------
 
 type VSess struct {
-	Id        robust.Id
-	Nick      string
-	LcNick    string
-	Username  string
-	LoggedIn  bool
-	Operator  bool
-	Server    bool
-	Pass      string
-	Channels  map[string]bool
-	Invited   map[string]bool
-	Modes     string
-	Prefix    string
-	Addr      string
-	Away      string
-	Deleted   bool
-	LastAct   time.Time
-	Captcha   time.Time
-	Created   int64
-	Svid      string
-	Realname  string
-	Cmid      uint64
+	Id         robust.Id
+	Nick       string
+	LcNick     string
+	Username   string
+	LoggedIn   bool
+	Operator   bool
+	Server     bool
+	Pass       string
+	Channels   map[string]bool
+	Invited    map[string]bool
+	Modes      string
+	Prefix     string
+	Addr       string
+	Away       string
+	Deleted    bool
+	LastAct    time.Time
+	Captcha    time.Time
+	Created    int64
+	Svid       string
+	Realname   string
+	Cmid       uint64
 	PrefixHost string
 }
 
 type VChan struct {
-	Lc      string
-	Name    string
-	Modes   string
-	Key     string
-	Topic   string
+	Lc        string
+	Name      string
+	Modes     string
+	Key       string
+	Topic     string
 	TopicNick string
 	TopicTime time.Time
-	Members map[string]bool // lc nick -> chanop
-	Bans    []string        // pattern~regexp
-	BanRes  []string        // regexp sources
+	Members   map[string]bool // lc nick -> chanop
+	Bans      []string        // pattern~regexp
+	BanRes    []string        // regexp sources
 }
 
 type VView struct {
@@ -576,3 +576,14 @@ func VerifLineDefect(data string) string { return vLineDefect(data) }
 
 // VerifTexts are the trailing-text values of C15's alphabet.
 func VerifTexts() []string { return append([]string(nil), vTexts...) }
+
+// VerifMarker reads a session's duplicate-detection marker directly from the state (0 when the session
+// does not exist), so that harnesses do not depend on the exported accessor keeping its name.
+func VerifMarker(i *IRCServer, id robust.Id) uint64 {
+	i.sessionsMu.RLock()
+	defer i.sessionsMu.RUnlock()
+	if s, ok := i.sessions[id]; ok {
+		return s.lastClientMessageId
+	}
+	return 0
+}
